@@ -926,7 +926,8 @@ func (c *checkCtx) writeEvidence(total, ok, trivial int, by map[string]int, solv
 		"the VC generator gocv itself (SSA semantics of the verified subset, heap-as-forest and buffer-as-unread-bytes abstractions, contract evaluation, SMT printing)",
 		"go/packages + go/types + go/ssa (x/tools v0.29.0) as a faithful front end for the Go 1.24.2 compiler",
 		"SMT solvers: an unsat answer of z3 4.8.12, z3 5.1.0 or cvc5 1.0",
-		"prelude axioms of /verif/prelude/prelude.smt2 (sequence theory, enc/dec inverse laws as transport of the bit-vector lemmas, box/unbox bijection, fold definitions)",
+		"the hand transcription of the 65 named prelude axioms (/verif/prelude/prelude.smt2) into the Lean theorems of prelude/Prelude.lean and prelude/Model.lean that prove them (checked by setup.sh and in the thorough tier), and the one-directional triggers chosen for them",
+		"functions without contract and without verified caller (constructors, String(), Algorithm(), methods of other types) are judged by a conservative syntactic purity analysis of their SSA form (aux.go), not by contracts",
 		"error values are abstracted to nil / non-nil; 64-bit integer arithmetic on lengths and indices is treated as mathematical",
 		"ownership: a message is a tree (distinct fields, list elements, the receiver and the buffer do not alias); foreign BinaryCodec implementations meet the interface schema",
 	}
